@@ -8,8 +8,11 @@ from __future__ import annotations
 
 import math
 
+import mpmath
 import sympy
 from sympy.core.function import AppliedUndef
+
+from vp.numctx import CTX
 
 
 class EvalError(Exception):
@@ -27,22 +30,22 @@ def to_sympy(e):
 
 
 _FUNCS1 = {
-    sympy.exp: math.exp,
-    sympy.sin: math.sin,
-    sympy.cos: math.cos,
-    sympy.tan: math.tan,
-    sympy.asin: math.asin,
-    sympy.acos: math.acos,
-    sympy.atan: math.atan,
-    sympy.sinh: math.sinh,
-    sympy.cosh: math.cosh,
-    sympy.tanh: math.tanh,
-    sympy.Abs: abs,
-    sympy.floor: math.floor,
-    sympy.ceiling: math.ceil,
-    sympy.loggamma: math.lgamma,
-    sympy.gamma: math.gamma,
-    sympy.erf: math.erf,
+    sympy.exp: "exp",
+    sympy.sin: "sin",
+    sympy.cos: "cos",
+    sympy.tan: "tan",
+    sympy.asin: "asin",
+    sympy.acos: "acos",
+    sympy.atan: "atan",
+    sympy.sinh: "sinh",
+    sympy.cosh: "cosh",
+    sympy.tanh: "tanh",
+    sympy.Abs: "abs",
+    sympy.floor: "floor",
+    sympy.ceiling: "ceil",
+    sympy.loggamma: "lgamma",
+    sympy.gamma: "gamma",
+    sympy.erf: "erf",
 }
 
 
@@ -51,9 +54,9 @@ def ev(e, env, funcs=None):
     e = to_sympy(e)
     try:
         v = _ev(e, env, funcs or {})
-    except (ZeroDivisionError, OverflowError, ValueError) as x:
+    except (ZeroDivisionError, OverflowError, ValueError, mpmath.libmp.libhyper.NoConvergence) as x:
         raise EvalError(str(x))
-    if isinstance(v, complex):
+    if isinstance(v, (complex, mpmath.mpc)):
         raise EvalError("complex")
     if isinstance(v, bool):
         return v
@@ -65,26 +68,28 @@ def ev(e, env, funcs=None):
 def _ev(e, env, funcs):
     if e.is_Symbol:
         try:
-            return float(env[e.name])
+            return CTX.val(env[e.name])
         except KeyError:
             raise Unbound(e.name)
     if e.is_Number:
-        if e is sympy.S.NaN or e is sympy.zoo:
+        if e is sympy.S.NaN or e is sympy.zoo or e.is_infinite:
             raise EvalError("nan const")
-        return float(e)
+        if e.is_Rational:
+            return CTX.rat(int(e.p), int(e.q))
+        return CTX.num(float(e))
     if e is sympy.S.Exp1:
-        return math.e
+        return CTX.e()
     if e is sympy.S.Pi:
-        return math.pi
+        return CTX.pi()
     if e is sympy.true:
         return True
     if e is sympy.false:
         return False
     f = e.func
     if f is sympy.Add:
-        return math.fsum(_ev(a, env, funcs) for a in e.args)
+        return CTX.fsum([_ev(a, env, funcs) for a in e.args])
     if f is sympy.Mul:
-        r = 1.0
+        r = CTX.one()
         for a in e.args:
             r *= _ev(a, env, funcs)
         return r
@@ -97,23 +102,23 @@ def _ev(e, env, funcs):
             raise EvalError("neg**frac")
         if abs(b) < 1e-300 and x < 0:
             raise EvalError("tiny**neg")
-        return b**x
+        return CTX.pow(b, x)
     if f is sympy.log:
         a = _ev(e.args[0], env, funcs)
         if a <= 0:
             raise EvalError("log<=0")
         if len(e.args) == 2:
-            return math.log(a) / math.log(_ev(e.args[1], env, funcs))
-        return math.log(a)
+            return CTX.f("log", a) / CTX.f("log", _ev(e.args[1], env, funcs))
+        return CTX.f("log", a)
     if f is sympy.sign:
         a = _ev(e.args[0], env, funcs)
         return (a > 0) - (a < 0)
     if f is sympy.Mod:
         a = _ev(e.args[0], env, funcs)
         b = _ev(e.args[1], env, funcs)
-        return math.fmod(a, b) if (a >= 0) == (b >= 0) else a - b * math.floor(a / b)
+        return a - b * CTX.f("floor", a / b)
     if f in _FUNCS1:
-        return float(_FUNCS1[f](_ev(e.args[0], env, funcs)))
+        return CTX.f(_FUNCS1[f], _ev(e.args[0], env, funcs))
     if f is sympy.Piecewise:
         for val, cond in e.args:
             if _ev(cond, env, funcs):
@@ -148,19 +153,19 @@ def _ev(e, env, funcs):
     if isinstance(e, AppliedUndef):
         name = e.func.__name__
         if name in funcs:
-            return float(funcs[name])
+            return CTX.val(funcs[name])
         if str(e) in env:
-            return float(env[str(e)])
+            return CTX.val(env[str(e)])
         if name in env:
-            return float(env[name])
+            return CTX.val(env[name])
         raise Unbound(str(e))
     if isinstance(e, sympy.Function):
         name = type(e).__name__
         if name == "PHI":  # standard normal cdf
             a = _ev(e.args[0], env, funcs)
-            return 0.5 * (1 + math.erf(a / math.sqrt(2)))
+            return (1 + CTX.f("erf", a / CTX.f("sqrt", CTX.rat(2, 1)))) / 2
         if name in funcs:
-            return float(funcs[name])
+            return CTX.val(funcs[name])
     raise EvalError(f"unsupported node {f}")
 
 
